@@ -24,7 +24,17 @@ fn comp_term(r: &mut Rng, nv: usize, depth: usize) -> T {
     if depth == 0 {
         return leaf(r);
     }
-    match r.below(6) {
+    match r.below(7) {
+        // a compound with an `Option` field: `Slot(Some(P3(a, b, c)), t)` / `Slot(None, t)` — the Option object has one
+        // child or none, so two objects of the SAME type can have different numbers of children
+        6 => {
+            let opt = if r.chance(1, 2) {
+                T::Comp(4, vec![])
+            } else {
+                T::Comp(4, vec![T::Comp(1, (0..3).map(|_| comp_term(r, nv, depth - 1)).collect())])
+            };
+            T::Comp(3, vec![opt, comp_term(r, nv, depth - 1)])
+        }
         0 | 1 | 2 => {
             let tag = r.below(3);
             T::Comp(tag, (0..arity(tag)).map(|_| comp_term(r, nv, depth - 1)).collect())
@@ -45,6 +55,26 @@ fn tree_prog(r: &mut Rng) -> Prog {
         // the other side: often the same shape with holes (so that field-wise unification happens),
         // sometimes another compound type / a list of the same fields / a literal (must never unify)
         let b = match (&a, r.below(6)) {
+            // a Slot against a Slot: the Option field flipped (Some vs None must never unify) or its fields varied; the
+            // Option field itself is not a term, so it is never replaced by a variable
+            (T::Comp(3, args), _) => {
+                let opt = match &args[0] {
+                    T::Comp(4, k) if k.is_empty() => {
+                        if r.chance(1, 2) { T::Comp(4, vec![T::Comp(1, (0..3).map(|_| comp_term(r, nv, 1)).collect())]) } else { args[0].clone() }
+                    }
+                    T::Comp(4, k) => {
+                        if r.chance(1, 3) {
+                            T::Comp(4, vec![])
+                        } else if let T::Comp(1, abc) = &k[0] {
+                            T::Comp(4, vec![T::Comp(1, abc.iter().map(|x| if r.chance(1, 2) { T::Var(r.below(nv)) } else { x.clone() }).collect())])
+                        } else {
+                            args[0].clone()
+                        }
+                    }
+                    other => other.clone(),
+                };
+                T::Comp(3, vec![opt, if r.chance(1, 2) { T::Var(r.below(nv)) } else { args[1].clone() }])
+            }
             (T::Comp(tag, args), 0) => T::Comp((*tag + 1) % 3, args.iter().take(arity((*tag + 1) % 3)).cloned().chain(std::iter::repeat(T::Num(1))).take(arity((*tag + 1) % 3)).collect()),
             (T::Comp(_, args), 1) => T::list(args.clone()),
             (T::Comp(tag, args), 2) | (T::Comp(tag, args), 3) => T::Comp(*tag, args.iter().map(|x| if r.chance(1, 2) { T::Var(r.below(nv)) } else { x.clone() }).collect()),
